@@ -185,6 +185,9 @@ pub fn tsan(id: &str, seed: u64, units: &[u64], agg: &mut Agg) {
 /// ASan + libFuzzer on a vfuzz target for `secs` seconds; crash artifacts are judged by `judge` (the native
 /// monitor); a crash the native monitor does not reproduce is attributed by its sanitizer summary line.
 pub fn fuzz(target: &str, secs: u64, agg: &mut Agg, judge: &dyn Fn(&[u8]) -> Vec<(String, String)>) {
+    fuzz_with_env(target, secs, &[], agg, judge)
+}
+pub fn fuzz_with_env(target: &str, secs: u64, env: &[(&str, &str)], agg: &mut Agg, judge: &dyn Fn(&[u8]) -> Vec<(String, String)>) {
     let t0 = Instant::now();
     let dir = format!("{}/harness/vfuzz", VERIF_ROOT);
     let work = format!("{}/target/work/fuzz/{}", VERIF_ROOT, target);
@@ -202,6 +205,7 @@ pub fn fuzz(target: &str, secs: u64, agg: &mut Agg, judge: &dyn Fn(&[u8]) -> Vec
         .current_dir(&dir)
         .env("CARGO_NET_OFFLINE", "true")
         .env("CARGO_TARGET_DIR", format!("{}/target/fuzz", VERIF_ROOT))
+        .envs(env.iter().map(|(k, v)| (k.to_string(), v.to_string())))
         .args(["+nightly", "fuzz", "run", target, &format!("{}/corpus", work), "--", &format!("-max_total_time={}", secs), "-fork=16", "-timeout=10", "-len_control=0", "-ignore_crashes=1", &format!("-artifact_prefix={}/artifacts/", work)])
         .stdin(Stdio::null())
         .output();
